@@ -72,6 +72,47 @@ pub fn run_case(case: &Sx) -> Sx {
         // (an K) as 6th element: the same history on an e-graph that carries an analysis (0 MinSize, otherwise Depth)
         let an: Option<u64> = c.as_lst().get(5).and_then(|e| match e { Sx::Lst(l) if l.len() == 2 && l[0].as_sym() == "an" => Some(l[1].as_num()), _ => None });
         match an { Some(0) => return run_an::<crate::eg14::MinSize>(&c), Some(_) => return run_an::<crate::eg14::Depth>(&c), None => {} }
+        // (lazy) as 6th element: NOTHING is observed between the operations (observing canonicalises, and canonicalising compresses
+        // union-find paths); at the end, FIRST every handle is canonicalised on its own (result alive, idempotent), then the usual
+        // observation and consistency checks, and the final equality matrix is compared with the one of the observed run
+        if c.as_lst().get(5).map(|e| e.head() == "lazy").unwrap_or(false) {
+            let h = run_history(&c, |_, _| {});
+            if let Some((_oi, kind, loc)) = &h.err {
+                return lst(vec![sym("obs"), lst(vec![sym("steps"), lst(vec![sym("err"), sym(kind), sym(&loc.replace(' ', "_").replace("/repo/", ""))])]), lst(vec![sym("cons")])]);
+            }
+            let canon = {
+                let r = std::panic::catch_unwind(std::panic::AssertUnwindSafe(|| -> Result<(), String> {
+                    for (k, a) in h.handles.iter().enumerate() {
+                        let f = h.eg.find_applied_id(a);
+                        if !h.eg.is_alive(f.id) { return Err(format!("canonicalising handle {} (first lookup after the history) names class {} which is not alive", k, f.id.0)); }
+                        let ff = h.eg.find_applied_id(&f);
+                        if f != ff { return Err(format!("canonicalising handle {} twice differs from canonicalising it once (first lookup after the history)", k)); }
+                    }
+                    Ok(())
+                }));
+                match r {
+                    Ok(Ok(())) => sym("ok"),
+                    Ok(Err(m)) => lst(vec![sym("fail"), sym(&m.replace(' ', "_"))]),
+                    Err(_) => { let (loc, msg) = take_panic().unwrap_or_default(); lst(vec![sym("err"), sym(panic_kind(&msg)), sym(&loc.replace(' ', "_").replace("/repo/", ""))]) }
+                }
+            };
+            // a second, independent lazy run answers the equality queries as its FIRST lookups
+            let h2 = run_history(&c, |_, _| {});
+            let first_eq = eq_matrix(&h2);
+            let o = step_obs(&h);
+            let k = consistency(&h);
+            // the observed run: the same history, observed after every operation
+            let h3 = run_history(&c, |h, _| { let _ = step_obs(h); });
+            let agree = match (first_eq, eq_matrix(&h3)) {
+                (Ok(a), Ok(b)) => if a == b { sym("ok") } else {
+                    let n = h.handles.len(); let (ab, bb) = (a.as_bytes(), b.as_bytes());
+                    let pos = (0..ab.len().min(bb.len())).find(|i| ab[*i] != bb[*i]).unwrap_or(0);
+                    lst(vec![sym("fail"), sym(&format!("handles_{}_and_{}_compare_{}_when_asked_first_after_the_history_and_{}_when_every_operation_was_observed", pos / n.max(1), pos % n.max(1), if ab[pos] == b'1' { "equal" } else { "unequal" }, if bb[pos] == b'1' { "equal" } else { "unequal" }))])
+                },
+                (Err((k, loc)), _) | (_, Err((k, loc))) => lst(vec![sym("err"), sym(&k), sym(&loc.replace(' ', "_").replace("/repo/", ""))]),
+            };
+            return lst(vec![sym("obs"), lst(vec![sym("steps"), o]), lst(vec![sym("cons"), canon, k, agree])]);
+        }
         let mut steps = vec![sym("steps")];
         let mut cons = vec![sym("cons")];
         let h = run_history(&c, |h, _| { let o = step_obs(h); let k = consistency(h); h.per_op.push(lst(vec![o, k])); });
@@ -114,6 +155,9 @@ pub fn main(a: &Args) {
                     }
                     c.to_string()
                 }).collect();
+            }
+            if a.extra.iter().any(|x| x == "lazy") {
+                lines = lines.into_iter().map(|l| { let mut c = Sx::parse(&l); if let Sx::Lst(v) = &mut c { v.push(lst(vec![sym("lazy")])); } c.to_string() }).collect();
             }
             write_lines(&format!("{}/cases.txt", a.out), &lines);
         }
